@@ -77,6 +77,7 @@ func init() {
 			ruleFMT4(c)
 			ruleFMT5(c)
 			ruleFMT6(c)
+			ruleLEX5(c) // the automaton that is encoded is the subset construction of all NFA states (closures complete, states identified canonically)
 			ruleLEX6(c)
 			ruleLEX7(c)
 			ruleLEX8(c)
